@@ -38,6 +38,13 @@ def generics_for(needs, rng=None, style=0):
     params, where = [], []
     if "'a" in needs:
         params.append(sx.gp_lt('a'))
+    if style == 3:
+        # parameters written with defaults (allowed on the type, never to be copied into an impl header)
+        if 'T' in needs:
+            params.append(sx.gp_ty('T', default=sx.tid('u8')))
+        if 'N' in needs:
+            params.append(sx.gp_const('N', sx.tid('usize'), default=sx.clit('3')))
+        return sx.generics(params, where)
     if 'T' in needs:
         if style % 3 == 1:
             params.append(sx.gp_ty('T', [sx.tb_trait(['Clone'])]))
